@@ -77,8 +77,11 @@ func c03Cases() []c03Case {
 		w    []string
 	}{{"[A]", []string{"A"}}, {"[A,B]", []string{"A", "B"}}, {"none", nil}, {"[]", []string{}}, {"[*]", []string{"*"}}}
 	for _, l := range lists {
-		for _, ctrl := range []string{"ipfs", "simple", "orbitdb"} {
+		for _, ctrl := range []string{"ipfs", "simple", "orbitdb", "simple-direct"} {
 			for _, route := range []string{"local", "sync", "topic", "direct", "ancestor"} {
+				if ctrl == "simple-direct" && (route == "topic" || route == "direct" || l.w == nil || len(l.w) == 0) {
+					continue // constructor-built replicas do not replicate over pubsub; the list is explicit
+				}
 				modes := c03Modes
 				if route == "local" {
 					modes = []string{"honest-nonwriter"}
@@ -102,7 +105,11 @@ func c03Cases() []c03Case {
 }
 
 func runC03Case(c c03Case) (string, []explore.Violation) {
-	w, err := NewAdv(AdvOptions{Kind: "eventlog", Writers: c.Writers, Controller: c.Controller})
+	opts := AdvOptions{Kind: "eventlog", Writers: c.Writers, Controller: c.Controller}
+	if c.Controller == "simple-direct" {
+		opts.Controller, opts.SimpleDirect = "", true
+	}
+	w, err := NewAdv(opts)
 	if err != nil {
 		// a controller type with which no database can be created or opened offers no replica to attack
 		return "skipped: database cannot be constructed (" + firstLine(err.Error()) + ")", nil
@@ -118,7 +125,12 @@ func runC03Case(c c03Case) (string, []explore.Violation) {
 		return "skipped: honest writer cannot write (" + firstLine(err.Error()) + ")", nil
 	}
 	if c.Route == "local" {
-		sn, err := w.N.DB.Open(bg, w.Addr, &iface.CreateDBOptions{Replicate: boolp(false)})
+		var sn iface.Store
+		if c.Controller == "simple-direct" {
+			sn, err = w.SimpleStore(w.N)
+		} else {
+			sn, err = w.N.DB.Open(bg, w.Addr, &iface.CreateDBOptions{Replicate: boolp(false)})
+		}
 		if err != nil {
 			return "skipped: non-writer cannot open", nil
 		}
@@ -220,7 +232,7 @@ func firstLine(s string) string {
 func init() {
 	explore.Register(&explore.CheckDef{
 		ID: "C03", Level: "exploration",
-		Rule: "full cross product, each case on a fresh world: write list {[A],[A,B],none (creator default),[],[*]} x controller {ipfs, simple, orbitdb} x route {local write by the non-writer, manual sync, topic message, direct-channel exchange, ancestor of an authorised colluder's head} x forging mode {honest non-writer, writer's id copied into the attacker's identity block, writer's whole identity block with the attacker's key and signature, writer's block and key with the attacker's signature, writer's id with identity signatures recomputed by the attacker} x position {alone, after, before an honest head}. Oracle: the local write fails and changes nothing; after quiescence the forged entry is in no victim log or view and the honest entry is. Wildcard lists and controllers with which no database can be built are recorded, not judged. Non-trivial = cases with a forged author field (every mode but the honest non-writer).",
+		Rule: "full cross product, each case on a fresh world: write list {[A],[A,B],none (creator default),[],[*]} x controller {ipfs, simple and orbitdb through a manifest, simple through the store constructor} x route {local write by the non-writer, manual sync, topic message, direct-channel exchange, ancestor of an authorised colluder's head} x forging mode {honest non-writer, writer's id copied into the attacker's identity block, writer's whole identity block with the attacker's key and signature, writer's block and key with the attacker's signature, writer's id with identity signatures recomputed by the attacker} x position {alone, after, before an honest head}. Oracle: the local write fails and changes nothing; after quiescence the forged entry is in no victim log or view and the honest entry is. Wildcard lists and controllers with which no database can be built are recorded, not judged. Non-trivial = cases with a forged author field (every mode but the honest non-writer).",
 		Units:  func(tier string) []explore.Unit { return explore.ChunkUnits("c03", 16) },
 		Budget: func(tier string) float64 { return 300 },
 		RunUnit: func(c *explore.Ctx) {
